@@ -108,7 +108,7 @@ App0 == [ c |-> [pc |-> 1, busy |-> ""], s |-> [pc |-> 1, busy |-> ""] ]
 MInit ==
   /\ c2s = <<>> /\ s2c = <<>>
   /\ car = [closeSend |-> FALSE, failed |-> FALSE]
-  /\ cli = [up |-> TRUE, lastID |-> 0, creating |-> 0, busy |-> 0, closing |-> FALSE]
+  /\ cli = [up |-> TRUE, lastID |-> 0, creating |-> 0, busy |-> 0, closing |-> FALSE, err |-> "none"]
   /\ cs = [r \in RPCs |-> CS0]
   /\ srv = [up |-> TRUE, lastSeen |-> 0, stopping |-> FALSE, busy |-> 0]
   /\ ss = [r \in RPCs |-> SS0]
@@ -424,7 +424,7 @@ CtlClose ==
 
 CliCloseDo ==
   /\ cli.closing /\ cli.up
-  /\ cli' = [cli EXCEPT !.up = FALSE]
+  /\ cli' = [cli EXCEPT !.up = FALSE, !.err = "ok"]
   /\ car' = IF Dir = "fwd" THEN [car EXCEPT !.closeSend = TRUE] ELSE car
   /\ cs' = [r \in RPCs |-> IF cs[r].intable
                            THEN [cs[r] EXCEPT !.intable = FALSE, !.ctx = IF @ = "live" THEN "tunnel" ELSE @]
@@ -452,7 +452,7 @@ CarFail ==
 \* the receive loop's Recv fails: close(err) - as Close() but with the error, and nothing to tear down
 CliFailDo ==
   /\ car.failed /\ cli.up /\ cli.busy = 0
-  /\ cli' = [cli EXCEPT !.up = FALSE]
+  /\ cli' = [cli EXCEPT !.up = FALSE, !.err = "err"]
   /\ cs' = [r \in RPCs |-> IF cs[r].intable
                            THEN [cs[r] EXCEPT !.intable = FALSE, !.ctx = IF @ = "live" THEN "tunnel" ELSE @]
                            ELSE cs[r]]
@@ -791,7 +791,7 @@ QRec == [ev |-> "q", final |-> FALSE, blocked |-> Blocked, h |-> HandlerCtx, par
          ctab |-> Cardinality({ r \in RPCs : cs[r].intable }),
          stab |-> IF srv.up THEN Cardinality({ r \in RPCs : ss[r].st = "live" }) ELSE 0,
          nsrv |-> IF srv.up THEN 1 ELSE 0, qc2s |-> Len(c2s), qs2c |-> Len(s2c), g |-> -1,
-         chdone |-> ~cli.up]
+         chdone |-> ~cli.up, cherr |-> cli.err]
 Quiesce ==
   /\ ~InternalEnabled /\ ~q.at
   /\ OQuiesce(QRec)
